@@ -156,33 +156,52 @@ class Body:
             if t["k"] != "call":
                 continue
             for a in t["args"]:
-                for tgt in self._mut_targets(a, 0):
-                    d[tgt].append({"kind": "mutarg", "term": t, "bi": bi, "proj": []})
+                seen_t = set()
+                for tgt, pj in self._mut_places(a, 0):
+                    k = (tgt, json.dumps(pj))
+                    if k in seen_t:
+                        continue
+                    seen_t.add(k)
+                    d[tgt].append({"kind": "mutarg", "term": t, "bi": bi, "proj": pj})
         return d
 
-    def _mut_targets(self, op, depth):
-        """locals that `op` (an argument) may mutably alias: &mut X, a copy of such a ref, or a closure capturing &mut X"""
-        if "p" not in op or depth > 4:
+    def _mut_places(self, op, depth):
+        """places (local, proj list) that `op` (an argument) may mutably alias: &mut X.f, a copy of such a ref, a view obtained through
+        deref_mut()/as_mut(), or a closure capturing &mut X"""
+        if "p" not in op or depth > 5:
             return []
         l = op["p"]["l"]
         out = []
-        # a local whose type is a &mut reference and which is a parameter / named variable: the call
-        # may write through it -> def of the local itself (we model *l as l)
         ty = self.locals[l] if l < len(self.locals) else ""
         if ty.startswith("&mut ") and (op["p"]["proj"] == [] or op["p"]["proj"] == ["*"]):
-            out.append(l)
+            out.append((l, []))
         for df in self._defs.get(l, []):
+            if df["kind"] == "call":
+                d = df["term"]["callee"].get("def", "")
+                if df["term"]["args"] and (d.endswith("::deref_mut") or d.endswith("::as_mut") or d.endswith("::as_mut_slice") or
+                                           d.endswith("::borrow_mut") or d.endswith("::as_mut_str") or d.endswith("::as_mut_vec")):
+                    out += self._mut_places(df["term"]["args"][0], depth + 1)
+                continue
             if df["kind"] != "assign":
                 continue
             rv = df["rv"]
             if rv["k"] == "ref" and rv.get("mut"):
-                out.append(rv["ops"][0]["p"]["l"])
+                pl = rv["ops"][0]["p"]
+                out.append((pl["l"], pl["proj"]))
+                if "*" in pl["proj"]:
+                    # reborrow `&mut *r` / `&mut (*r).f`: also whatever r itself refers to
+                    for (l2, p2) in self._mut_places({"p": {"l": pl["l"], "proj": []}}, depth + 1):
+                        if l2 != pl["l"]:
+                            out.append((l2, p2 + [e for e in pl["proj"] if e != "*"]))
             elif rv["k"] in ("use", "cast"):
-                out += self._mut_targets(rv["ops"][0], depth + 1)
+                out += self._mut_places(rv["ops"][0], depth + 1)
             elif rv["k"] == "agg" and rv.get("agg") in ("closure", "coroutine"):
                 for o in rv["ops"]:
-                    out += self._mut_targets(o, depth + 1)
+                    out += self._mut_places(o, depth + 1)
         return out
+
+    def _mut_targets(self, op, depth):
+        return [l for l, _ in self._mut_places(op, depth)]
 
     def preds(self):
         if self._preds is None:
